@@ -91,6 +91,7 @@ func (c *fnCtx) execInstr(st *State, in ssa.Instruction) {
 		c.storeLocs(st, locs, v)
 	case *ssa.Call:
 		c.execCall(st, in, &in.Call, in)
+		c.sealBounds(st)
 	case *ssa.Defer:
 		st.defers = append(st.defers, deferred{flag: "true", call: in})
 	case *ssa.RunDefers:
@@ -189,7 +190,7 @@ func (c *fnCtx) execUnOp(st *State, in *ssa.UnOp) {
 		v := c.loadLocs(st, locs, t)
 		v = c.nameVal(v, in.Name())
 		v.T = in.Type()
-		c.assumeLoaded(st, v)
+		c.assumeWFB(st, v, c.loadBound(st, locs))
 		c.vals[in] = v
 	case token.SUB:
 		x := c.val(st, in.X)
